@@ -148,12 +148,16 @@ func CmpTotal(a, b any) Ordering {
 	return CmpEqual
 }
 
-var typeOfInt, typeOfMap uintptr
+var typeOfInt, typeOfMap, typeOfList uintptr
 
 func typeOf(x any) uintptr {
 	switch x.(type) {
 	case *big.Int, *big.Rat, float64:
 		return typeOfInt
+	case List:
+		// Lists and slices of lists have different Go types but are the same
+		// Elvish type.
+		return typeOfList
 	}
 	if IsFieldMap(x) {
 		return typeOfMap
@@ -165,4 +169,7 @@ func typeOf(x any) uintptr {
 func init() {
 	typeOfInt = typeOf(0)
 	typeOfMap = typeOf(EmptyMap)
+	// The first word of an empty interface is a pointer to the type descriptor.
+	var emptyList any = EmptyList
+	typeOfList = *(*uintptr)(unsafe.Pointer(&emptyList))
 }
